@@ -194,16 +194,20 @@ void runLayouts(long kk, uint64_t seed, bool th, Result& res) {
     case 5:
         LAYOUT("cell-like: scalar<24B>+vec<32B>", big, TbfMemoryScalar<Bytes<24>>, TbfMemoryVector<Bytes<32>>)
         LAYOUT("vec<8B>+vec<16B>+vec<24B>+vec<2B>", big, TbfMemoryVector<Bytes<8>>, TbfMemoryVector<Bytes<16>>, TbfMemoryVector<Bytes<24>>, TbfMemoryVector<Bytes<2>>)
+        // sub-blocks with different alignment template arguments (multiples of 8, so that long/double stay aligned wherever a block starts)
+        LAYOUT("mixed alignment 8/8/64/8: scalar<24B>+vec<long>+vec<12B>+vec<double>", big, TbfMemoryScalar<Bytes<24>, 8>, TbfMemoryVector<long, 8>, TbfMemoryVector<Bytes<12>, 64>, TbfMemoryVector<double, 8>)
         break;
     case 6:
         LAYOUT("rows<8B,2>+cols<8B,3>+vec<7B>", big, TbfMemoryMultiRVector<Bytes<8>, 2>, TbfMemoryMultiVVector<Bytes<8>, 3>, TbfMemoryVector<Bytes<7>>)
         LAYOUT("vec<65B>+rows<64B,2>+scalar<1B>+vec<1B>", 1500, TbfMemoryVector<Bytes<65>>, TbfMemoryMultiRVector<Bytes<64>, 2>, TbfMemoryScalar<Bytes<1>>, TbfMemoryVector<Bytes<1>>)
+        LAYOUT("mixed alignment 16/128/8: vec<3B>+rows<8B,2>+vec<7B>", big, TbfMemoryVector<Bytes<3>, 16>, TbfMemoryMultiRVector<Bytes<8>, 2, 128>, TbfMemoryVector<Bytes<7>, 8>)
         break;
     default:
         LAYOUT("rows<4B,1>", big, TbfMemoryMultiRVector<Bytes<4>, 1>)
         LAYOUT("rows<32B,4>+rows<16B,3>", 2000, TbfMemoryMultiRVector<Bytes<32>, 4>, TbfMemoryMultiRVector<Bytes<16>, 3>)
         LAYOUT("scalar<4096B>", 1, TbfMemoryScalar<Bytes<4096>>)
         LAYOUT("vec<100B>+cols<1B,64>", 1500, TbfMemoryVector<Bytes<100>>, TbfMemoryMultiVVector<Bytes<1>, 64>)
+        LAYOUT("mixed alignment 64/8/32/256: vec<65B>+vec<1B>+cols<4B,3>+scalar<9B>", 1500, TbfMemoryVector<Bytes<65>, 64>, TbfMemoryVector<Bytes<1>, 8>, TbfMemoryMultiVVector<Bytes<4>, 3, 32>, TbfMemoryScalar<Bytes<9>, 256>)
         break;
     }
     res.sig = "layouts:" + vh::str(kk); res.nontrivial = true;
